@@ -372,6 +372,22 @@ pub fn cases(tier: &str, seed: u64, focus: &str) -> Vec<EncCase> {
         }
     }
 
+    // (3c') a short mixed prefix followed by a run rich in X12-only characters (* > CR): many plans of different
+    // start modes converge on X12 in the middle of a triple (the pruning passes' corner cases)
+    if focus != "C10" {
+        let nx = if thorough { 20000 } else if focus == "C11" { 5000 } else { 1500 };
+        for _ in 0..nx {
+            let mut s: Vec<u8> = (0..rng.range(1, 6)).map(|_| *rng.pick(&SIGMA)).collect();
+            for _ in 0..rng.range(4, 14) {
+                s.push(*rng.pick(b"A0 *>\r*>\rB9a"));
+            }
+            if rng.chance(1, 3) {
+                s.extend_from_slice(*rng.pick(&TAILS[..]));
+            }
+            push_cfgs(&mut out, &mut rng, &g, "x12Mix", &s, 1, focus);
+        }
+    }
+
     // (3d) degenerate payloads under every mode set: empty input, bare macro envelopes, a single character
     if focus != "C10" {
         let mut bare05 = MACRO05_HEAD.to_vec();
@@ -507,4 +523,51 @@ pub fn run_case(idx: usize, c: &EncCase, profile: &str) -> Value {
     json!({"id": idx, "fam": "enc", "stratum": c.stratum, "profile": profile, "order": c.order,
            "input": bytes_json(&c.input), "modes": c.modes, "list": list_names, "caps": caps,
            "macro": c.macros, "fnc1": c.fnc1, "eci": c.eci, "events": events})
+}
+
+
+/// "storm": many more random inputs than are logged.  Only the encoder is called; a case is written to the trace
+/// (and then judged by TLC like any other) only if the call panicked.  Returns the number of calls made.
+pub fn storm(n: usize, seed: u64, profile: &str, first_id: usize, out: &mut Out) -> usize {
+    let g = CfgGen::new();
+    let mut rng = Rng::new(seed, 0x5707);
+    for k in 0..n {
+        let mut s: Vec<u8> = Vec::new();
+        match rng.below(6) {
+            0 | 4 | 5 => {
+                for _ in 0..rng.range(1, 6) {
+                    s.push(*rng.pick(&SIGMA));
+                }
+                for _ in 0..rng.range(3, 14) {
+                    s.push(*rng.pick(b"A0 *>\r*>\rB9a"));
+                }
+            }
+            1 => {
+                for _ in 0..rng.range(2, 5) {
+                    let c = *rng.pick(&CLASSES);
+                    let m = rng.range(1, 10);
+                    s.extend(class_string(&mut rng, c, m));
+                }
+            }
+            2 => {
+                let m = rng.range(1, 24);
+                s = (0..m).map(|_| *rng.pick(&SIGMA)).collect();
+            }
+            _ => {
+                let m = rng.log_range(1, 200);
+                s = random_runs(&mut rng, m);
+            }
+        }
+        let modes = if rng.chance(2, 3) { 63 } else { rng.below(64) as u8 };
+        let list = if rng.chance(2, 3) { g.default.clone() } else { g.list(&mut rng, &s, false) };
+        let c = EncCase { order: [0, 1, 2, 3], stratum: "storm", input: s, modes, list, macros: rng.chance(3, 4), fnc1: rng.chance(1, 10), eci: -1 };
+        let l = SymbolList::with_whitelist(c.list.iter().copied());
+        let b = DataMatrixBuilder::new().with_encodation_types(modes_from_mask(c.modes)).with_symbol_list(l).with_macros(c.macros).with_fnc1_start(c.fnc1);
+        let inp = c.input.clone();
+        set_case(first_id + k, "encode (storm)");
+        if let Outcome::Panic(..) = guarded(move || b.encode(&inp).is_ok()) {
+            out.put(&run_case(first_id + k, &c, profile));
+        }
+    }
+    n
 }
